@@ -63,6 +63,9 @@ CLAIMS = {
  "C16": ("table agreement with MQTT 3.1.1 (tables transcribed from the standard inside the checker): per packet type the field layout extracted from the encoder equals the decoder's and the standard's, optional fields exactly under their flags, type codes consistent across writeHeader/Type()/dispatch, empty packets; known-bits provenance of the CONNECT flags byte and the fixed-header byte on both sides; remaining-length algorithm transcription and encodeLength on every writeHeader path; big-endian u16 and length-prefixed strings; byte values at the length boundaries as such are not decided",
          "the transcribed tables; go/ssa; QoS fields are 2 bits wide (property precondition)",
          "static analysis: codec layout extraction vs independent spec table, known-bits abstract interpretation, algorithm transcription check, must-pass-through"),
+ "C09": ("structural necessary conditions: size check before the body allocation, bounds before slicing, clamped configuration; interprocedural tainted-size slice over every make site; recover at the per-connection root and in async.Repeat, listing of the unrecovered gossip roots; on everything reachable from those roots constant-offset accesses of wire-derived slices need a covering length test, carrier conversions are guarded at their boundaries, undecodable events are skipped; decoder error discipline; unchecked Merge assertions (two known findings); memory/CPU inside third-party decoders and hangs are not decided",
+         "trusts go/ssa; in-scope call graph; store-derived values are trusted",
+         "static analysis: tainted-size backward slice, constant-bounds vs dominating length-test rule over call-graph reachability, SSA guard cut-sets, recover-in-own-frame rule"),
 }
 
 NOT_YET = "no sound structural rule implemented yet in this static-analysis framework (see DESIGN.md §4 for the clauses planned); behavioural clauses quantify over runtime values"
